@@ -270,6 +270,25 @@ theorem inv_stepInput (st : St) (h : Inv st) (frame : Str) : Inv (stepInput st f
     · simp only [hq, if_true]; exact inv_routeRequest st h k n l b
     · simp only [hq]; exact inv_routeResponse st h k n l b
 
+theorem inv_stepFrame (st : St) (h : Inv st) (f : WsFrames.Frame) : Inv (stepFrame st f).1 := by
+  unfold stepFrame
+  split
+  · have hasm : ∀ a, Inv { st with asm := a } := fun a => ⟨h.iso, h.compl, h.routes⟩
+    split
+    · exact hasm _
+    · split
+      · exact inv_stepInput _ (hasm _) _
+      · exact inv_stopAll _ _
+    · exact inv_stopAll _ _
+    · exact inv_stopAll _ _
+    · exact inv_stopAll _ _
+  · exact h
+
+theorem inv_stepFrames (st : St) (h : Inv st) (fs : List WsFrames.Frame) : Inv (stepFrames st fs).1 := by
+  induction fs generalizing st with
+  | nil => exact h
+  | cons f fs ih => exact ih _ (inv_stepFrame st h f)
+
 theorem mem_killDl {ds : List Dl} {id : Nat} {d : Dl} (h : d ∈ killDl ds id) :
     ∃ d0 ∈ ds, d.id = d0.id ∧ d.node = d0.node ∧ d.lane = d0.lane ∧ (d.alive = true → d0.alive = true ∧ d = d0) := by
   simp only [killDl, List.mem_map] at h
@@ -343,6 +362,7 @@ theorem inv_step (st : St) (h : Inv st) (op : Op) : Inv (step st op).1 := by
     by_cases hr : st.running = true
     · simp only [hr, if_true]; exact inv_stepInput st h frame
     · simp only [hr]; exact h
+  | frames fs => exact inv_stepFrames st h fs
   | send s m =>
     simp only [step]
     split <;> exact h
